@@ -32,6 +32,15 @@ Proof.
     apply ext_rbind; [apply IH|]. intros; apply ext_refl.
 Qed.
 
+Lemma ext_iter_list body body' l :
+  (forall v env out, ext (body v env out) (body' v env out)) ->
+  forall env out, ext (iter_list body l env out) (iter_list body' l env out).
+Proof.
+  intros H. induction l as [|v r IH]; intros env out; simpl.
+  - apply ext_refl.
+  - apply ext_rbind; [apply H|]. intros fl out1. destruct fl; [apply IH|apply ext_refl].
+Qed.
+
 Lemma mono_step n m :
   (forall p env out e, ext (eval n p env out e) (eval m p env out e)) ->
   (forall p env out ss, ext (exec n p env out ss) (exec m p env out ss)) ->
@@ -47,9 +56,9 @@ Proof.
       apply ext_rbind; [apply IHe|]. intros; apply ext_refl.
     + apply ext_rbind; [apply IHe|]. intros; apply ext_refl.
     + (* EAnd *) apply ext_rbind; [apply IHe|]. intros va out1.
-      destruct va as [z|[|]|s]; try apply ext_refl. apply IHe.
+      destruct va as [z|[|]|s|s|s| |c k|l]; try apply ext_refl. apply IHe.
     + apply ext_rbind; [apply IHe|]. intros va out1.
-      destruct va as [z|[|]|s]; try apply ext_refl. apply IHe.
+      destruct va as [z|[|]|s|s|s| |c k|l]; try apply ext_refl. apply IHe.
     + apply ext_rbind; [apply IHe|]. intros va out1.
       apply ext_rbind; [apply IHe|]. intros; apply ext_refl.
     + apply ext_rbind; [apply IHe|]. intros; apply ext_refl.
@@ -59,17 +68,32 @@ Proof.
       apply ext_rbind; [apply ext_map_eval; intros; apply IHe|]. intros ls out2.
       apply ext_rbind; [apply IHx|]. intros fl out3.
       destruct fl; [apply IHe|apply ext_refl].
+    + (* ENew *) destruct (nth_error (p_classes p) c); [|apply ext_refl].
+      apply ext_rbind; [apply IHe|]. intros; apply ext_refl.
+    + (* ESend *) apply ext_rbind; [apply IHe|]. intros vr out0.
+      destruct vr; try apply ext_refl.
+      destruct (dispatch (p_classes p) c name) as [mt|]; [|apply ext_refl].
+      apply ext_rbind; [apply ext_map_eval; intros; apply IHe|]. intros vs out1.
+      destruct (negb (Nat.eqb (List.length vs) (m_params mt))); [apply ext_refl|].
+      apply ext_rbind; [apply ext_map_eval; intros; apply IHe|]. intros ls out2.
+      apply ext_rbind; [apply IHx|]. intros fl out3.
+      destruct fl; [apply IHe|apply ext_refl].
+    + (* EList *) apply ext_rbind; [apply ext_map_eval; intros; apply IHe|].
+      intros; apply ext_refl.
   - intros p env out ss. destruct ss as [|s rest]; cbn [exec]; [apply ext_refl|].
     destruct s.
     + apply ext_rbind; [apply IHe|]. intros; apply IHx.
     + apply ext_rbind; [apply IHe|]. intros v out1. destruct v; try apply ext_refl. apply IHx.
     + apply ext_rbind; [apply IHe|]. intros v out1. destruct v; try apply ext_refl.
       apply ext_rbind; [apply IHx|]. intros fl out2. destruct fl; [apply IHx|apply ext_refl].
-    + apply ext_rbind; [apply IHe|]. intros v out1. destruct v as [z|[|]|s0]; try apply ext_refl.
+    + apply ext_rbind; [apply IHe|]. intros v out1. destruct v as [z|[|]|s0|s0|s0| |c0 k0|l0]; try apply ext_refl.
       * apply ext_rbind; [apply IHx|]. intros fl out2. destruct fl; [apply IHx|apply ext_refl].
       * apply IHx.
     + apply ext_rbind; [apply IHe|]. intros; apply ext_refl.
     + apply ext_rbind; [apply IHe|]. intros; apply IHx.
+    + (* SForIn *) apply ext_rbind; [apply IHe|]. intros v out1. destruct v; try apply ext_refl.
+      apply ext_rbind; [apply ext_iter_list; intros; apply IHx|]. intros fl out2.
+      destruct fl; [apply IHx|apply ext_refl].
 Qed.
 
 Lemma mono_add k : forall n,
